@@ -43,9 +43,23 @@ def render_list(vals: list[int], style: int) -> str:
 def render_skip(skip_all: list[int], skip: dict[int, list[int]], style: int) -> str:
     """Ranges2D grammar: space separated  <sessions>:<ids>  entries; an entry without ':' names whole sessions."""
     parts = []
-    for s in sorted(skip):
-        if skip[s]:
-            parts.append(f"{_num(s, style)}:{render_list(skip[s], style + s)}")
+    by_id: dict[int, set[int]] = {}
+    for s, ids in skip.items():
+        for i in ids:
+            by_id.setdefault(i, set()).add(s)
+    shared = any(len(v) > 1 for v in by_id.values())
+    if shared and style % 2 == 0:
+        # the same denotation written with entries that span several sessions ("1-3:0x11") followed by
+        # entries that add identifiers for some of them ("2:0x28"): outer keys repeat across entries
+        groups: dict[tuple[int, ...], list[int]] = {}
+        for i, ss in by_id.items():
+            groups.setdefault(tuple(sorted(ss)), []).append(i)
+        for ss in sorted(groups, key=lambda g: (-len(g), g)):
+            parts.append(f"{render_list(list(ss), style)}:{render_list(groups[ss], style + len(ss))}")
+    else:
+        for s in sorted(skip):
+            if skip[s]:
+                parts.append(f"{_num(s, style)}:{render_list(skip[s], style + s)}")
     if skip_all:
         parts.append(render_list(skip_all, style))
     if style % 2:
@@ -129,6 +143,7 @@ SKIPS_SVC: list[tuple[list[int], dict[int, list[int]]]] = [
     ([], {1: [0x00, 0x10, 0x22, 0x23, 0x24, 0x3F, 0x40, 0xFF], 2: list(range(0x80, 0xC1))}),
     ([2], {1: list(range(0x10, 0x30)), 3: [0x7F, 0x80, 0xBF, 0xC0]}),
     ([3], {2: [0x27], 3: [0x10]}),
+    ([], {1: [0x11, 0x27, 0x3E], 2: [0x11, 0x28], 3: [0x11, 0x27, 0x85]}),
 ]
 SESSION_LISTS: list[list[int] | None] = [[1, 2], None, [2], [1, 2, 3], [1, 2, 5], [2, 3], [3, 1], [6, 2]]
 
